@@ -64,7 +64,11 @@ def gen_ops(rng, d, n, length, dflt=0):
             ops.append({"k": "iadd", "p": p, "v": rng.choice([1, -1, 2, 0]), "held": rng.random() < 0.3,
                         # "elem": through the element found by position (e = fiber[pos]; e += v),
                         # "item": fiber[pos] += v — both only where the point is stored, else as "iadd"
-                        "how": rng.choice(["iadd", "iadd", "isub", "elem", "item"])})
+                        # "box" / "subbox": the amount handed over boxed (ref += Payload(v)); "divbox": ref *= Payload(2),
+                        # ref /= Payload(2), ref <<= int(ref.value) first - content-neutral on integers, but every
+                        # in-place operator of the box (+= -= *= /= <<=) has to keep writing through the handle,
+                        # with a scalar and with a boxed right-hand side alike (seed C03-19)
+                        "how": rng.choice(["iadd", "iadd", "isub", "elem", "item", "box", "subbox", "divbox"])})
         else:
             ops.append({"k": "posref", "p": p[:1]})
     return ops
@@ -236,8 +240,19 @@ def run(case):
                 out = H.snapshot(acc.getPayloadRef(*p))
             elif k == "iadd":
                 ref = handle(p, op.get("held"))
+                P = H.ft().Payload
+                intval = isinstance(ref, P) and type(ref.value) is int
                 if op.get("how") == "isub":
                     ref -= -op["v"]
+                elif op.get("how") == "box" and intval:
+                    ref += P(op["v"])
+                elif op.get("how") == "subbox" and intval:
+                    ref -= P(-op["v"])
+                elif op.get("how") == "divbox" and intval:
+                    ref *= P(2)
+                    ref /= P(2)
+                    ref <<= int(ref.value)
+                    ref += op["v"]
                 else:
                     ref += op["v"]
                 out = H.snapshot(acc.getPayloadRef(*p))
